@@ -630,7 +630,9 @@ func Supervise(id string, o RunOpts) int {
 					}
 					site := crashSite(es)
 					rr := &CaseResult{Case: i, Seed: r.Seed, Verdict: Inconclusive, Detail: "re-run died: " + firstLine(es, "panic:", "fatal error:"), Witness: es}
-					if (strings.Contains(es, "panic:") || strings.Contains(es, "fatal error:")) && !strings.Contains(site, "verif/") {
+					if tornMarshal(es) {
+						rr.Detail = "re-run died again in a torn marshal of the engine's live table (data race by construction, not attributable to the property): " + firstLine(es, "panic:", "fatal error:")
+					} else if (strings.Contains(es, "panic:") || strings.Contains(es, "fatal error:")) && !strings.Contains(site, "verif/") {
 						rr.Verdict = Violated
 						rr.Sig = id + "/engine-crash/" + site
 						if cx := st.marks[i]; cx != "" {
@@ -665,6 +667,22 @@ func firstLine(s string, keys ...string) string {
 		}
 	}
 	return ""
+}
+
+// tornMarshal reports whether the process died inside encoding/json while marshalling: the engine hands out its
+// live table by pointer and keeps changing it, so a subscriber (the harness, or the repository's own actor adapter)
+// that marshals it can be torn by a concurrent writer - a slice shrinks under the encoder. That is the data race
+// "by construction" of DESIGN section 1; it says nothing about the property under test, however often it repeats.
+func tornMarshal(es string) bool {
+	i := strings.Index(es, "panic:")
+	if i < 0 {
+		return false
+	}
+	blk := es[i:]
+	if len(blk) > 4000 { // the panicking goroutine's stack comes first
+		blk = blk[:4000]
+	}
+	return strings.Contains(blk, "encoding/json.(*encodeState).marshal") && (strings.Contains(blk, "reflect:") || strings.Contains(blk, "index out of range") || strings.Contains(blk, "nil pointer"))
 }
 
 func crashSite(es string) string {
